@@ -53,7 +53,20 @@ DYN = {"Graph": (0, 1, 2, 3), "ConjunctiveGraph": (1, 2), "Dataset": (2,), "Quot
 
 DEFAULT_ID = z3.Const("DATASET_DEFAULT_GRAPH_ID", TermSort)
 
+ctxobj = z3.Function("store_context_object", z3.IntSort(), TermSort, z3.IntSort())
 tcard = z3.Function("triple_set_card", z3.ArraySort(TripleSort, z3.BoolSort()), z3.IntSort())
+
+
+def opt_case(path, ty, v, none_val, some_fn):
+    """case analysis on an Optional argument that may be projected (None / value) or still symbolic"""
+    if v is None:
+        return none_val
+    if isinstance(v, SV) and isinstance(v.ty, TOpt):
+        if v.ty.inner.is_ref:
+            return z3.If(v.z == 0, none_val, some_fn(v.z))
+        os_ = option_sort(v.ty.inner.sort())
+        return z3.If(os_.is_none(v.z), none_val, some_fn(os_.get(v.z)))
+    return some_fn(path.inject(ty, v))
 
 
 def G_of(st: StateView, store_z):
@@ -122,6 +135,8 @@ class GraphModel(RDFModel):
 
     def obj_isinstance(self, it, v, n):
         if isinstance(v.ty, TObj) and v.ty.cls in ("Graph", "ConjunctiveGraph", "Dataset", "QuotedGraph"):
+            if n == "Graph":
+                return True
             if n in DYN:
                 dyn = it.path.get_field_z(v.z, "Graph", "__dyn__")
                 return z3.Or(*[dyn == c for c in DYN[n]])
@@ -284,6 +299,8 @@ class GraphModel(RDFModel):
 
         def add_post(c):
             s = c.self.z
+            if c.args["context"] is None:
+                return z3.BoolVal(True)   # precondition violated by the caller (reported there)
             t0 = c.path.inject(TRIPLE, c.args["triple"])
             n0 = gid(c, c.args["context"])
             G0, G1 = G_of(c.old, s), G_of(c.new, s)
@@ -327,15 +344,28 @@ class GraphModel(RDFModel):
             st, s = c.old, c.self.z
 
             def mem(gz, tz=tz):
-                # the attached generator: graph objects on this store naming the graphs that hold the triple
-                return z3.And(gz != 0, st.field("Graph", "_Graph__store", gz) == s,
-                              G_of(st, s)[tz][st.field("Graph", "_Graph__identifier", gz)])
+                # the attached generator: the stored graph objects naming the graphs that hold the triple
+                name = st.field("Graph", "_Graph__identifier", gz)
+                return z3.And(gz != 0, gz == ctxobj(s, name), G_of(st, s)[tz][name])
             cg = SymIter(GRAPH, mem, True, label="contexts-of-triple")
             cg.names = lambda n, tz=tz: G_of(st, s)[tz][n]
             return (elem, cg)
+        def tr_objects(c):
+            """store invariant used by readers: a graph that holds a triple is known, and the store keeps one
+            graph object per known name"""
+            st, s = c.old, c.self.z
+            n = z3.Const("co_n", TermSort)
+            t = z3.Const("co_t", TripleSort)
+            o = ctxobj(s, n)
+            return z3.And(
+                z3.ForAll([t, n], z3.Implies(G_of(st, s)[t][n], K_of(st, s)[n])),
+                z3.ForAll([n], z3.Implies(K_of(st, s)[n], z3.And(
+                    o > 0, o < st.alloc, st.field("Graph", "_Graph__store", o) == s,
+                    st.field("Graph", "_Graph__identifier", o) == n,
+                    st.field("Graph", "__dyn__", o) == DYN_GRAPH))))
         self.add(Contract("C01", "rdflib/store.py", "Store.triples",
                           [Param("triple", PAT), Param("context", OGRAPH, default=None)],
-                          cls="Store", self_ty=STORE,
+                          cls="Store", self_ty=STORE, post=tr_objects,
                           gen=GenSpec(TRIPLE, tr_member, distinct=True, wrap=tr_wrap), modifies=[], trusted=True,
                           note="abstract: exactly the matching triples of the graph (of the union when context is "
                                "None), each once (proved for Memory.triples / SimpleMemory.triples)"))
@@ -357,15 +387,23 @@ class GraphModel(RDFModel):
             st, s = c.old, c.self.z
             tv = c.args["triple"]
             name = st.field("Graph", "_Graph__identifier", gz)
-            base = z3.And(gz != 0, st.field("Graph", "_Graph__store", gz) == s)
-            if tv is None:
-                return z3.And(base, K_of(st, s)[name])
-            tz = c.path.inject(TRIPLE, tv)
-            return z3.And(base, G_of(st, s)[tz][name])
+            base = z3.And(gz != 0, gz == ctxobj(s, name))
+            return z3.And(base, opt_case(c.path, TRIPLE, tv, K_of(st, s)[name], lambda tz: G_of(st, s)[tz][name]))
+
+        def ctxs_objects(c):
+            """the store keeps one Graph object per known graph name (its all_contexts set)"""
+            st, s = c.old, c.self.z
+            n = z3.Const("co_n", TermSort)
+            o = ctxobj(s, n)
+            return z3.ForAll([n], z3.Implies(K_of(st, s)[n], z3.And(
+                o > 0, o < st.alloc, st.field("Graph", "_Graph__store", o) == s,
+                st.field("Graph", "_Graph__identifier", o) == n,
+                st.field("Graph", "__dyn__", o) == DYN_GRAPH)))
         self.add(Contract("C02", "rdflib/store.py", "Store.contexts", [Param("triple", TOpt(TRIPLE), default=None)],
                           cls="Store", self_ty=STORE, gen=GenSpec(GRAPH, ctxs_member, distinct=True), modifies=[],
-                          trusted=True, note="abstract: the known graphs (as graph objects on this store), or the "
-                                             "graphs holding the triple"))
+                          post=ctxs_objects,
+                          trusted=True, note="abstract: the known graphs (one stored graph object per known name), or "
+                                             "the graphs holding the triple; a graph holding a triple is known"))
 
         # ---- add_graph / remove_graph
         def ag_post(c):
